@@ -102,6 +102,21 @@ pub(crate) fn set_bot_top_from() {
     kani::assert(g.as_reveal_ref().has(e) == a.has(e), "C04:lattice_from_preserves_value");
 }
 
+/// C03: is_bot in every cheap representation (Len::is_empty may be overridden per collection)
+#[kani::proof] #[kani::unwind(8)]
+pub(crate) fn set_bot_every_representation() {
+    let o = OptionSet::<u8>(if kani::any() { Some(kani::any()) } else { None });
+    kani::assert(SetUnion::new(o.clone()).is_bot() == o.0.is_none(), "C03:set_union_is_bot_iff_empty");
+    kani::assert(!SetUnion::new(SingletonSet::<u8>(kani::any())).is_bot(), "C03:set_union_is_bot_iff_empty");
+    kani::assert(!SetUnion::new(sym_array2()).is_bot() && SetUnion::new(ArraySet::<u8, 0>([])).is_bot(), "C03:set_union_is_bot_iff_empty");
+    kani::assert(SetUnion::new(lattices::collections::EmptySet::<u8>::default()).is_bot(), "C03:set_union_is_bot_iff_empty");
+    let om = OptionMap::<u8, V>(if kani::any() { Some((kani::any(), val())) } else { None });
+    let want = match &om.0 { None => true, Some((_, v)) => *v.as_reveal_ref() == 0 };
+    kani::assert(MapUnion::new(om).is_bot() == want, "C03:map_union_is_bot_iff_every_value_is_bot");
+    let sv = val();
+    kani::assert(MapUnion::new(SingletonMap::<u8, V>(kani::any(), sv)).is_bot() == (*sv.as_reveal_ref() == 0), "C03:map_union_is_bot_iff_every_value_is_bot");
+}
+
 // ---------------------------------------------------------------------------------------------- maps
 type V = Max<u8>; // Max(0) is bottom: exercises "bottom entries are invisible"
 fn val() -> V { Max::new(kani::any()) }
